@@ -661,7 +661,120 @@ def r20_4(ctx):
 # ---------------------------------------------------------------------------------------------------
 
 
+def r20_7(ctx):
+    """Authentication *histories*: the three ProxyAuth hook methods are interpreted from their AST (pyint) on every sequence of up
+    to three hook invocations on one client connection x credential class {none, malformed, wrong, valid (password with ':')}
+    x proxy mode, with the addon's state (self.authenticated, flow metadata) carried along.  After every step the outcome must be
+    the reference's: a request is let through only if THIS connection authenticated successfully before or the request itself
+    carries valid credentials (then the credential header is removed); otherwise the auth-required response of the mode is set.
+    Catches cooperating edits (state written on one path, trusted on another) that per-function tables cannot see."""
+    import base64
+    import binascii
+    import itertools
+
+    from ..pyint import DictRec
+    from ..pyint import Interp
+    from ..pyint import Raised
+    from ..pyint import Rec
+
+    VALID = ("user", "p:w")
+    CREDS = {
+        "none": None,
+        "malformed": "Basic !!!notbase64",
+        "wrong": "Basic " + base64.b64encode(b"user:nope").decode(),
+        "valid": "Basic " + base64.b64encode(b"user:p:w").decode(),
+    }
+    MS = "mitmproxy/proxy/mode_specs.py"
+    modes = ["RegularMode", "UpstreamMode", "ReverseMode", "TransparentMode", "Socks5Mode"]
+    steps_http = [("CONNECT", c) for c in CREDS] + [("REQUEST", c) for c in CREDS]
+    steps_socks = [("SOCKS", "wrong"), ("SOCKS", "valid")]
+    fn = ctx.func(PA, "ProxyAuth.authenticate_http")
+    where = (PA, "ProxyAuth", ctx.model.cls(PA, "ProxyAuth"))
+    bad = {}
+    n = 0
+    for mode in modes:
+        anc = [c.name for _, c in ctx.model.mro(MS, mode)]
+        is_proxy = mode in ("RegularMode", "UpstreamMode")
+        hdr = "Proxy-Authorization" if is_proxy else "Authorization"
+        kinds = list(steps_http)
+        if mode in ("ReverseMode", "TransparentMode"):
+            kinds = [k for k in kinds if k[0] != "CONNECT"]
+        if mode == "Socks5Mode":
+            kinds = [k for k in kinds if k[0] != "CONNECT"] + steps_socks
+        for length in (1, 2, 3):
+            for seq in itertools.product(kinds, repeat=length):
+                it = Interp(ctx.model, trusted_modules={"binascii": binascii, "base64": base64, "weakref": __import__("weakref"), "re": __import__("re")},
+                            externals={"http.Response.make": lambda status_code=200, content=b"", headers=(): Rec("Response", status_code=status_code, headers=headers, content=content)})
+                conn = Rec("Client", _name="client_conn", proxy_mode=Rec(mode, _bases=tuple(anc[1:]), _impl=(MS, mode)))
+                addon = Rec("ProxyAuth", _impl=(PA, "ProxyAuth"), validator=(lambda u, p: (u, p) == VALID), authenticated=DictRec("WeakKeyDictionary", {}, _name="self.authenticated"))
+                authed = False
+                hist = []
+                for kind, cred in seq:
+                    hist.append(f"{kind}({cred})")
+                    n += 1
+                    if kind == "SOCKS":
+                        u, p = VALID if cred == "valid" else ("user", "nope")
+                        data = Rec("Socks5AuthData", client_conn=conn, username=u, password=p, valid=False)
+                        try:
+                            it.method(addon, "socks5_auth", data)
+                            got = ("valid", bool(data.valid))
+                        except Raised as r:
+                            got = ("raises", r.name)
+                        want = ("valid", cred == "valid")
+                        authed = authed or cred == "valid"
+                    else:
+                        headers = DictRec("Headers", {"Host": "example.com"}, case_insensitive=True, _name="request.headers")
+                        if CREDS[cred] is not None:
+                            headers._items[hdr] = CREDS[cred]
+                        req = Rec("Request", headers=headers, method="CONNECT" if kind == "CONNECT" else "GET", host="example.com", port=443, scheme="https", authority="example.com:443")
+                        f = Rec("HTTPFlow", _name="flow", request=req, response=None, client_conn=conn, metadata=DictRec("dict", {}, _name="flow.metadata"), is_replay=None, live=True,
+                                server_conn=Rec("Server", via=None, address=None))
+                        try:
+                            it.method(addon, "http_connect" if kind == "CONNECT" else "requestheaders", f)
+                            status = getattr(f.response, "status_code", None) if f.response is not None else None
+                            got = ("status", status, "header-kept" if hdr.lower() in {k.lower() for k in headers._items} else "header-gone")
+                        except Raised as r:
+                            got = ("raises", r.name)
+                        ok_now = (authed and kind == "REQUEST") or cred == "valid"  # a CONNECT always has to carry its own credentials
+                        if kind == "REQUEST" and authed:
+                            want = ("status", None, got[2] if got[0] == "status" else None)  # header handling on pre-authenticated connections is not demanded
+                        elif ok_now:
+                            want = ("status", None, "header-gone")
+                        else:
+                            want = ("status", 407 if is_proxy else 401, "header-kept" if CREDS[cred] is not None else "header-gone")
+                            if got[0] == "status" and got[1] == want[1]:
+                                want = got  # header may or may not be kept on a refused request
+                        if kind == "CONNECT" and cred == "valid":
+                            authed = True
+                    if got != want:
+                        bad.setdefault((mode, got, want), " -> ".join(hist))
+                        break
+                else:
+                    # probe: a request without credentials on ANOTHER connection is never let through
+                    other = Rec("Client", _name="other_conn", proxy_mode=conn.proxy_mode)
+                    headers = DictRec("Headers", {"Host": "example.com"}, case_insensitive=True, _name="request.headers")
+                    f = Rec("HTTPFlow", _name="flow", request=Rec("Request", headers=headers, method="GET", host="example.com", port=80, scheme="http", authority=""), response=None,
+                            client_conn=other, metadata=DictRec("dict", {}, _name="flow.metadata"), is_replay=None, live=True, server_conn=Rec("Server", via=None, address=None))
+                    try:
+                        it.method(addon, "requestheaders", f)
+                        got = getattr(f.response, "status_code", None) if f.response is not None else None
+                    except Raised as r:
+                        got = f"raises {r.name}"
+                    n += 1
+                    if got != (407 if is_proxy else 401):
+                        bad.setdefault((mode, ("other-connection", got), ("status", 407 if is_proxy else 401)), " -> ".join(hist) + " ; then REQUEST(none) on another connection")
+    ctx.cells += n
+    for (mode, got, want), h in sorted(bad.items(), key=str):
+        ctx.fail("R20.7", where, f"{mode}: history {h}: outcome {got}, expected {want}",
+                 "a request on a connection that never presented valid credentials is let through (or a valid one is refused / keeps its credential header)")
+    if not bad:
+        ctx.ok("R20.7", f"{n} hook invocations over all histories of length <= 3 x 4 credential classes x {len(modes)} modes agree with the reference")
+    ctx.bounds.append("R20.7: histories of at most 3 hook invocations on one connection")
+
+
 def check(ctx):
+    ctx.rule("R20.7", "ProxyAuth hook methods interpreted over all histories (<= 3 steps) x credential classes x modes: only connections/requests with valid credentials pass")
+    ctx.guard(r20_7, ctx)
     ctx.rule("R20.1", "ProxyAuth is a default addon and implements requestheaders / http_connect / socks5_auth as dispatched by the hook classes; Socks5AuthData.valid defaults to False")
     ctx.rule("R20.2", "deny mode: nothing is forwarded and no child layer starts in the HttpStream / Socks5Proxy models; refusals are answered")
     ctx.rule("R20.3", "ProxyAuth decision tables: skip only for authenticated connections / replays; accept => header removed; else auth-required response per mode")
@@ -697,20 +810,29 @@ def check(ctx):
         ctx.require("UpstreamAuth" in order, "UpstreamAuth() vanished from default_addons")
     ctx.expect_instances("R20.5", 1 if "ProxyAuth" in order else 0)
     # R20.2 / R20.6
-    r20_2_http(ctx)
-    r20_2_socks(ctx)
+    ctx.guard(r20_2_http, ctx)
+    ctx.guard(r20_2_socks, ctx)
     ctx.expect_instances("R20.2", 2)
     # R20.3
     if not missing:
-        r20_3(ctx)
+        ctx.guard(r20_3, ctx)
         ctx.expect_instances("R20.3", 2)
     # R20.4
-    r20_4(ctx)
+    ctx.guard(r20_4, ctx)
     ctx.expect_instances("R20.4", 1)
 
 
 I = HTTP
 MUTANTS = [
+    Mutant("connect-trusts-metadata-set-before-validation", PA, """        if self.validator and self.authenticate_http(f):
+            # Make a note""", """        if self.validator and (self.authenticate_http(f) or f.request.headers.get("Proxy-Authorization")):
+            # Make a note""", "R20.7"),
+    Mutant("authenticated-any-connection", PA, "            if f.client_conn in self.authenticated:", "            if self.authenticated:", "R20.7"),
+    Mutant("socks-marks-before-validating", PA, """        if self.validator and self.validator(data.username, data.password):
+            data.valid = True
+            self.authenticated[data.client_conn] = data.username, data.password""", """        self.authenticated[data.client_conn] = data.username, data.password
+        if self.validator and self.validator(data.username, data.password):
+            data.valid = True""", "R20.7"),
     Mutant("proxyauth-not-default", "mitmproxy/addons/__init__.py", "        proxyauth.ProxyAuth(),\n", "", "R20.1"),
     Mutant("connect-hook-method-renamed", PA, "    def http_connect(self, f: http.HTTPFlow) -> None:", "    def httpconnect(self, f: http.HTTPFlow) -> None:", "R20.1"),
     Mutant("socks-valid-by-default", MODES, "    valid: bool = False\n", "    valid: bool = True\n", "R20.1"),
